@@ -1,44 +1,80 @@
 /-
   Engine `dispatch` (C04).  Same line protocol as harness/dispatch.cpp:
 
-    D <table> <locsize> <msg>;<msg>;… [tokens for the oracle, ignored]
-        <table> = T<0|1>[c|m][<entry>,<entry>,…]  0/1: the table has a default handler; c/m: the
-                                                  harness builds it through ClonePorts / MergePorts
+    D <table> <locsize>+<slack> <msg>;<msg>;… [tokens for the oracle, ignored]
+        <table> = T<0|1>[<entry>,<entry>,…]      0/1: the table has a default handler
+                | T<0|1>c[<entry>,…]{i.j.…}      the table that is dispatched is
+                                                  `ClonePorts(src, {{src[i].name, cb}, {src[j].name, cb}, …})`
+                                                  (plus `{"*", default handler}` for T1) — model: `clonePorts`
+                | T<0|1>m[<entry>,…]{n1.n2.…}    … is `MergePorts({&t1, &t2, …})`, t1 = the first n1
+                                                  entries, t2 the next n2, … — model: `mergePorts`
         <entry> = L<name-hex>                    port without sub-table
                 | N<name-hex><table>             port with sub-table (recursion callback)
+        <slack> = number of zero bytes behind the message (the block the message lives in
+                  has exactly message size + slack bytes)
         <msg>   = <B|S><address-hex>:<tags-hex>  B: dispatch(msg, d, true), S: dispatch(msg, d)
       -> per message  <with location buffer>/<without>,  messages separated by '|':
-           [<call>;<call>;…]m<matches>p<d.port|->l<loc-hex> / [<call>;…]p<d.port|->
-           <call> = <P|D><path>@<offset of msg>,<loc-hex|NULL>,<obj path>,<d.port|->
+           [<call>;<call>;…]m<matches>p<d.port|-|*>l<ok|loc-hex> / [<call>;…]p<d.port|-|*>
+           <call> = <P|D><path>@<offset of msg>,<loc-hex|NULL>,<obj path>,<d.port|-|*>
            <path> = table indices joined by '.', 'r' for the root
-         or `oob` for a message on which the model leaves a buffer.
+         Only what the property observes, in canonical form: the calls as a sorted multiset
+         (the statement fixes no order among the ports of one table); `d.port` as seen by a
+         default handler is `*` (not observed); the callback of a port with a sub-table sees
+         `loc` with or without the trailing '/' (printed without); `d.port` after the dispatch
+         is printed when the invoked ports form one chain root → … → leaf (otherwise it
+         depends on the order: `*`); `loc` after the dispatch is `ok` for "" or "/".
+         `oob` for a message on which the model leaves a buffer.
+    R <table> <locsize>+<slack> <msg>;… [ignored]
+      the harness' static tree built with the library's rRecur / rRecurs / rRecurp / rRecursp
+      macros (the token is that tree; the harness refuses any other).  Same output, but the
+      callbacks of the sub-tree ports are the library's and do not log: only callbacks of
+      ports without sub-table are listed, without message offset (`-`), and `<obj path>`
+      carries the element every enumerated port on the way hands down: `2#1.4#0`
+      (`Sugar.objIdx`, i.e. `rBOILS_BEGIN`); `d.port` after the dispatch is `*`.
     H <table>
       -> which lookup strategy each table of the tree gets (pre-order): `h` hashed, `l` linear
          (not compared with the implementation; used by the generator statistics and the tests)
 -/
 import RtoscModel.Ports.Dispatch
+import RtoscModel.Ports.Build
+import RtoscModel.Ports.Sugar
 import Driver.Common
 namespace Driver.DispatchEngine
 open Rtosc Rtosc.Ports Rtosc.Ports.Hash
-
-def slack : Nat := 32
 
 /-! ### table parser -/
 
 def isHexChar (c : Char) : Bool := (hexVal c).isSome
 
+/-- `{1.2.3}` / `{}` -/
+def parseNums (cs : List Char) : Option (List Nat × List Char) :=
+  match cs with
+  | '{' :: r =>
+    let body := r.takeWhile (· != '}')
+    let r' := (r.dropWhile (· != '}')).drop 1
+    if body.isEmpty then some ([], r')
+    else
+      let parts := (String.ofList body).splitOn "."
+      let nums := parts.filterMap (·.toNat?)
+      if nums.length == parts.length then some (nums, r') else none
+  | _ => none
+
+/-- split `l` into pieces of the given sizes (the last piece takes what is left) -/
+def splitSizes {α : Type} (l : List α) : List Nat → List (List α)
+  | [] => if l.isEmpty then [] else [l]
+  | n :: ns => l.take n :: splitSizes (l.drop n) ns
+
 /-- `T<d>[` … `]`; fuel = number of characters -/
 partial def parseTable : List Char → Option (Ports × List Char)
   | 'T' :: dc :: r0 =>
-    -- construction mode of the harness (`c`: ClonePorts, `m`: MergePorts): the same table
-    let r1 := match r0 with
-      | 'c' :: r => r
-      | 'm' :: r => r
-      | r => r
+    let (mode, r1) := match r0 with
+      | 'c' :: r => ('c', r)
+      | 'm' :: r => ('m', r)
+      | r => ('d', r)
     if r1.head? != some '[' then none else
     let r := r1.drop 1
     let dflt := dc == '1'
-    let rec entries (cs : List Char) (acc : List (Bytes × Option Ports)) : Option (List (Bytes × Option Ports) × List Char) :=
+    let rec entries (cs : List Char) (acc : List Entry) : Option (List Entry × List Char) :=
       match cs with
       | ']' :: r => some (acc.reverse, r)
       | ',' :: r => entries r acc
@@ -50,19 +86,29 @@ partial def parseTable : List Char → Option (Ports × List Char)
           match ofHex (String.ofList hx) with
           | none => none
           | some name =>
-            if k == 'L' then entries r' ((name, none) :: acc)
+            if k == 'L' then entries r' (.leaf name :: acc)
             else match parseTable r' with
               | none => none
-              | some (child, r'') => entries r'' ((name, some child) :: acc)
+              | some (child, r'') => entries r'' (.node name child.tab child.dflt :: acc)
         else none
       | [] => none
     match entries r [] with
     | none => none
     | some (es, r') =>
-      let tab := es.foldr (fun e t => match e with
-                                       | (n, none) => Table.leaf n t
-                                       | (n, some c) => Table.node n c.tab c.dflt t) Table.nil
-      some ({ tab := tab, dflt := dflt }, r')
+      if mode == 'd' then some ({ tab := Table.ofEntries es, dflt := dflt }, r')
+      else match parseNums r' with
+        | none => none
+        | some (nums, r'') =>
+          if mode == 'c' then
+            -- the clone list names the ports by their index in the source
+            match nums.mapM (fun i => es[i]?.map Entry.name) with
+            | none => none
+            | some names =>
+              match clonePorts es names with
+              | none => none
+              | some res => some ({ tab := Table.ofEntries res, dflt := dflt }, r'')
+          else
+            some ({ tab := Table.ofEntries (mergePorts (splitSizes es nums)), dflt := dflt }, r'')
   | _ => none
 
 /-! ### tables are built once per op line -/
@@ -93,18 +139,66 @@ def showLoc : Option Bytes → String
   | none => "NULL"
   | some s => toHex s
 
-def showCall (total : Nat) (c : Call) : String :=
-  s!"{showWho c.who}@{total - c.m.length},{showLoc c.loc},{showPath c.obj},{showPort c.dport}"
+/-- `sugar`: an `R` line (no offsets, objects with element indices) -/
+structure Mode where
+  sugar : Bool
+  /-- root table and the message as the root table sees it (for `Sugar.objIdx`) -/
+  root : Table
+  m0 : Bytes
 
-def showCalls (total : Nat) (l : List Call) : String :=
-  "[" ++ ";".intercalate (l.map (showCall total)) ++ "]"
+def stripSlash (s : Bytes) : Bytes :=
+  if s.getLast? == some 47 then s.dropLast else s
+
+def showObj (md : Mode) (obj : List Nat) : String :=
+  if !md.sugar then showPath obj
+  else match Sugar.objIdx md.root md.m0 obj with
+    | none => "?"
+    | some [] => "r"
+    | some l => ".".intercalate (l.map (fun (i, ix) => match ix with
+                                                        | none => toString i
+                                                        | some k => s!"{i}#{k}"))
+
+def showCall (md : Mode) (total : Nat) (c : Call) : String :=
+  let off := if md.sugar then "-" else toString (total - c.m.length)
+  let loc := if c.isLeaf then c.loc else c.loc.map stripSlash
+  let dport := match c.who with
+    | .dflt _ => "*"
+    | .port _ => showPort c.dport
+  s!"{showWho c.who}@{off},{showLoc loc},{showObj md c.obj},{dport}"
+
+def showCalls (md : Mode) (total : Nat) (l : List Call) : String :=
+  let l := if md.sugar then l.filter (·.isLeaf) else l
+  let strs := (l.map (showCall md total)).mergeSort (fun a b => !(b < a))
+  "[" ++ ";".intercalate strs ++ "]"
+
+def isPrefixOf (a b : List Nat) : Bool := a.length ≤ b.length && b.take a.length == a
+
+/-- the invoked ports form one chain root → … → leaf: sorted by length the paths have the
+    lengths 1, 2, … and each extends the one before -/
+def isChain (l : List Call) : Bool :=
+  let ps := (l.filterMap (fun c => match c.who with
+                                   | .port p => some p
+                                   | .dflt _ => none)).mergeSort (fun a b => a.length ≤ b.length)
+  let rec go (prev : List Nat) : List (List Nat) → Bool
+    | [] => true
+    | p :: r => p.length == prev.length + 1 && isPrefixOf prev p && go p r
+  go [] ps
+
+def showFinalPort (md : Mode) (l : List Call) (p : Option (List Nat)) : String :=
+  if md.sugar || !isChain l then "*" else showPort p
+
+def showFinalLoc (l : Option Bytes) : String :=
+  match l with
+  | some [] => "ok"
+  | some [47] => "ok"
+  | l => showLoc l
 
 def zeros (n : Nat) : Bytes := List.replicate n 0
 
-def buildMsg (addr tags : Bytes) : Bytes :=
+def buildMsg (slack : Nat) (addr tags : Bytes) : Bytes :=
   Match.mkMsg addr tags (zeros ((tags.map Match.zeroArgSize).sum + slack))
 
-def oneMsg (mk : List Bytes → Option Matcher) (P : Ports) (locSize : Nat) (tok : String) : String :=
+def oneMsg (sugar : Bool) (mk : List Bytes → Option Matcher) (P : Ports) (locSize slack : Nat) (tok : String) : String :=
   match tok.toList with
   | k :: rest =>
     match (String.ofList rest).splitOn ":" with
@@ -112,25 +206,27 @@ def oneMsg (mk : List Bytes → Option Matcher) (P : Ports) (locSize : Nat) (tok
       match ofHex a, ofHex t with
       | some addr, some tags =>
         let base := k == 'B'
-        let msg := buildMsg addr tags
+        let msg := buildMsg slack addr tags
+        let md : Mode := { sugar := sugar, root := P.tab,
+                           m0 := if base && msg.head? == some 47 then msg.drop 1 else msg }
         let dL : RtData := { loc := some [], locSize := locSize, locHigh := 0, obj := [], nmatches := 0, port := none }
         let dN : RtData := { dL with loc := none, locSize := 0 }
         match dispatch mk P msg dL base, dispatch mk P msg dN base with
         | some (l1, d1), some (l2, d2) =>
           if d1.locHigh > locSize then "oob"
-          else s!"{showCalls msg.length l1}m{d1.nmatches}p{showPort d1.port}l{showLoc d1.loc}/{showCalls msg.length l2}p{showPort d2.port}"
+          else s!"{showCalls md msg.length l1}m{d1.nmatches}p{showFinalPort md l1 d1.port}l{showFinalLoc d1.loc}/{showCalls md msg.length l2}p{showFinalPort md l2 d2.port}"
         | _, _ => "oob"
       | _, _ => "bad-msg"
     | _ => "bad-msg"
   | [] => "bad-msg"
 
-def opD (tab : String) (locSize : Nat) (msgs : String) : String :=
+def opD (sugar : Bool) (tab : String) (locSize slack : Nat) (msgs : String) : String :=
   match parseTable tab.toList with
   | some (P, []) =>
     let f := matcherOf realSearch
     let cache := buildCacheFor f P
     let mk := cachedMk f cache
-    "|".intercalate ((msgs.splitOn ";").map (oneMsg mk P locSize))
+    "|".intercalate ((msgs.splitOn ";").map (oneMsg sugar mk P locSize slack))
   | _ => "bad-op"
 
 def strategies (f : List Bytes → Option Matcher) : Table → List String
@@ -153,11 +249,15 @@ def opH (tab : String) : String :=
 
 def step (line : String) : String :=
   match words line with
-  | "D" :: tab :: ls :: msgs :: _ =>
-    match ls.toNat? with
-    | some locSize => opD tab locSize msgs
-    | none => "bad-op"
   | "H" :: tab :: _ => opH tab
+  | k :: tab :: ls :: msgs :: _ =>
+    if k != "D" && k != "R" then "bad-op" else
+    match ls.splitOn "+" with
+    | [a, b] =>
+      match a.toNat?, b.toNat? with
+      | some locSize, some slack => opD (k == "R") tab locSize slack msgs
+      | _, _ => "bad-op"
+    | _ => "bad-op"
   | _ => "bad-op"
 
 def engine : Driver.Engine := Driver.stateless step
